@@ -4,6 +4,7 @@ Static: the Python text of py/templates/base.j2 is rendered per template path wi
 expressions, parsed with `ast`, and checked for dominance of the admission test over every backing-field assignment.
 """
 import ast
+import re
 import textwrap
 
 from nvsa import j2front, j2text, pyfront
@@ -282,6 +283,23 @@ def rule_union(ctx, ts):
         f = [(e, pol) for e, pol in j2front.facts(stack or ()) ]
         ok = ("(type.inner_type is UnionType)", True) in f and any(g.kind == "for" and xs(g.node.iter) == "type.fields_except_padding" for g in stack)
         ctx.ob(R, t.rel, "union setter: clearing happens in every setter of a union", ok, f"{f}", clear.lineno)
+        # ... and only after the new value has been admitted: in the setter loop body the clearing block follows the kind dispatch
+        # (whose rejecting branches raise), so a rejected assignment leaves the previously selected option in place
+        loop_g = [g for g in (stack or ()) if g.kind == "for" and xs(g.node.iter) == "type.fields_except_padding"]
+        order_ok = False
+        if loop_g:
+            body = loop_g[-1].node.body
+            def top_index(target):
+                for i, b in enumerate(body):
+                    if b is target or any(x is target for x in b.find_all(type(target))):
+                        return i
+                return None
+            disp = [i for i, b in enumerate(body) if isinstance(b, N.If) and re.match(r"^\(f\.data_type is \w+\)$", xs(b.test))]
+            ci = top_index(clear)
+            order_ok = bool(disp) and ci is not None and ci > max(disp)
+        ctx.ob(R, t.rel, "union setter: the other options are cleared only after the new value passed validation", order_ok,
+               "" if order_ok else "the clearing block precedes the validating assignment: a rejected value (ValueError) leaves the union with no option "
+               "selected (MALFORMED UNION; serialize() raises)", clear.lineno)
     # __init__ of unions
     init_if = None
     for n in m.find_all(N.If):
@@ -372,6 +390,99 @@ def rule_model(ctx, ts, px):
     ctx.ob(R, t.rel, "_restore_constant_ undoes filter_pickle layer by layer", ok, f"decode {dec} vs encode {enc}")
 
 
+def rule_builtin(ctx, ts):
+    R = "R-C18-BUILTIN"
+    ctx.rule(
+        R,
+        "py/support: update_from_builtin walks model.fields_except_padding unfiltered and skips a field only when the source "
+        "has no entry for it (the LookupError handler of source.pop); every kind branch applies the value (set_attribute or "
+        "recursive update) and the closing else asserts; leftover source keys raise ValueError; _to_builtin_impl emits every "
+        "field whose attribute is not None (the only filter, hiding inactive union variants) - so that whatever to_builtin "
+        "produces, update_from_builtin applies completely",
+    )
+    N = ts.nodes
+    cands = [x for x in ts.templates if x.rel.endswith("py/support/nunavut_support.j2")]
+    if not cands:
+        raise AnalysisError("anchor missing: py/support/nunavut_support.j2")
+    t = cands[0]
+    paths = j2text.render_paths(N, t.ast.body, limit=64)
+    n = 0
+    for p in paths[:4]:
+        try:
+            tree = ast.parse(p.text)
+        except SyntaxError as e:
+            raise AnalysisError(f"rendered nunavut_support does not parse: {e}")
+        fns = {f.name: f for f in tree.body if isinstance(f, ast.FunctionDef)}
+        up = fns.get("update_from_builtin")
+        tb = fns.get("_to_builtin_impl")
+        if up is None or tb is None:
+            raise AnalysisError("anchor missing: update_from_builtin / _to_builtin_impl")
+        dest, src = (a.arg for a in up.args.args[:2])
+        # the field loop
+        fields_names = {tg.id for a in ast.walk(up) if isinstance(a, ast.Assign) and ast.unparse(a.value).endswith(".fields_except_padding")
+                        for tg in a.targets if isinstance(tg, ast.Name)}
+        loops = [lp for lp in up.body if isinstance(lp, ast.For) and (ast.unparse(lp.iter) in fields_names or ast.unparse(lp.iter).endswith(".fields_except_padding"))]
+        ok = len(loops) == 1
+        ctx.ob(R, t.rel, "update_from_builtin: one loop over model.fields_except_padding (unfiltered)", ok, f"{len(loops)} loops", up.lineno)
+        if not ok:
+            continue
+        n += 1
+        lp = loops[0]
+        fv = lp.target.id if isinstance(lp.target, ast.Name) else "f"
+        # skips
+        pm = pyfront.parent_map(lp)
+        for st, gd in pyfront.walk_guarded(lp.body, ()):
+            if isinstance(st, (ast.Continue, ast.Break)) or (isinstance(st, ast.Return)):
+                terms = pyfront.guard_terms(gd)
+                par = pm.get(id(st))
+                in_handler = isinstance(par, ast.ExceptHandler) and par.type is not None and ast.unparse(par.type) in ("LookupError", "KeyError") and not terms
+                if not in_handler and isinstance(par, ast.ExceptHandler):
+                    terms = terms + [(f"except {ast.unparse(par.type) if par.type else 'BaseException'}", True)]
+                ctx.ob(R, t.rel, f"update_from_builtin: `{type(st).__name__.lower()}` in the field loop only when the source has no entry for the field", in_handler,
+                       "" if in_handler else f"a supplied value is skipped under {terms}: e.g. an empty dict for a field-less composite (the selected union "
+                       "variant) is dropped and the destination keeps its previous variant", st.lineno)
+        tries = [x for x in lp.body if isinstance(x, ast.Try)]
+        ok = len(tries) == 1 and any(isinstance(c, ast.Call) and isinstance(c.func, ast.Attribute) and c.func.attr == "pop" and ast.unparse(c.func.value) == src
+                                     and [ast.unparse(a) for a in c.args] == [f"{fv}.name"] for c in ast.walk(tries[0]))
+        ctx.ob(R, t.rel, "update_from_builtin: the value is taken with source.pop(f.name)", ok, "", lp.lineno)
+        # kind dispatch: each branch applies the value
+        chain = [x for x in lp.body if isinstance(x, ast.If) and "isinstance(" in ast.unparse(x.test)]
+        ok = len(chain) == 1
+        if ok:
+            cur = chain[0]
+            kinds = []
+            while True:
+                applies = any(isinstance(c, ast.Call) and isinstance(c.func, ast.Name) and c.func.id in ("set_attribute", "update_from_builtin") for b in cur.body for c in ast.walk(b))
+                kinds.append((ast.unparse(cur.test), applies))
+                if len(cur.orelse) == 1 and isinstance(cur.orelse[0], ast.If):
+                    cur = cur.orelse[0]
+                else:
+                    closed = any(isinstance(x, (ast.Assert, ast.Raise)) for x in cur.orelse)
+                    break
+            for k, applies in kinds:
+                ctx.ob(R, t.rel, f"update_from_builtin [{k[:60]}]: the value is applied (set_attribute / recursive update)", applies, "", lp.lineno)
+            want = {"CompositeType", "ArrayType", "PrimitiveType"}
+            got = {w for w in want for k, _ in kinds if w in k}
+            ctx.ob(R, t.rel, "update_from_builtin: composite, array and primitive fields are all handled; anything else asserts", got == want and closed,
+                   f"{sorted(got)} closed={closed}", lp.lineno)
+        else:
+            ctx.ob(R, t.rel, "update_from_builtin: kind dispatch on the field type", False, f"{len(chain)} dispatch statements", lp.lineno)
+        after = up.body[up.body.index(lp) + 1:]
+        ok = any(isinstance(x, ast.If) and ast.unparse(x.test) == src and any(isinstance(r, ast.Raise) and "ValueError" in ast.unparse(r) for r in ast.walk(x)) for x in after)
+        ctx.ob(R, t.rel, "update_from_builtin: leftover source keys raise ValueError", ok, "", up.lineno)
+        # to_builtin: composite branch
+        comps = [c for c in ast.walk(tb) if isinstance(c, ast.DictComp)]
+        ok = len(comps) == 1 and len(comps[0].generators) == 1 and ast.unparse(comps[0].generators[0].iter).endswith(".fields_except_padding")
+        if ok:
+            g = comps[0].generators[0]
+            v = g.target.id if isinstance(g.target, ast.Name) else "f"
+            ok = ast.unparse(comps[0].key) == f"{v}.name" and len(g.ifs) <= 1 and all(
+                isinstance(i, ast.Compare) and len(i.ops) == 1 and isinstance(i.ops[0], ast.IsNot) and ast.unparse(i.comparators[0]) == "None"
+                and ast.unparse(i.left).startswith("get_attribute(") for i in g.ifs)
+        ctx.ob(R, t.rel, "_to_builtin_impl: every field whose attribute is not None is emitted under its DSDL name", ok, "", tb.lineno)
+    ctx.floor(R, n, 1)
+
+
 def run(ctx):
     ctx.explanation = (
         "C18 is decided on the Python text embedded in py/templates/base.j2: each setter branch, the assign_array "
@@ -382,10 +493,11 @@ def run(ctx):
         "(to_builtin/update_from_builtin, _MODEL_ equality) are not executed."
     )
     ctx.declined = ["faithful round trip through builtins and equality of _MODEL_ with the source model (run-time object comparisons)",
-                    "the contents of nunavut_support.j2 (to_builtin / update_from_builtin) beyond name resolution (C06)"]
+                    "value-level behaviour of to_builtin / update_from_builtin (only the completeness structure of both walks is decided: R-C18-BUILTIN)"]
     ts = j2front.TemplateSet(ctx.root)
     px = pyfront.PyIndex(ctx.root)
     canonicalise(ts)
     rule_validate(ctx, ts)
     rule_union(ctx, ts)
     rule_model(ctx, ts, px)
+    rule_builtin(ctx, ts)
